@@ -123,6 +123,13 @@ def run(ctx):
             # through the text parser
             if registered and ci % 7 == 0 and pat:
                 text = f"vers:{registered}/" + "|".join(str(c) for c in cons)
+                if ci % 14 == 0:
+                    # the verdict must not depend on what was parsed before: the same text read earlier without validation
+                    try:
+                        vr.VersionRange.from_string(text, validate=False)
+                        vr.VersionRange.from_string(text, simplify=False, validate=False)
+                    except Exception:  # noqa
+                        pass
                 o = vers.res_bool(lambda: bool(vr.VersionRange.from_string(text, validate=True)))
                 evals += 1
                 # duplicated '*' items or a leading '*' are refused by the parser before validation
